@@ -115,7 +115,7 @@ Progress == IF l > TLCGet(1) THEN TLCSet(1, l) ELSE TRUE
 TraceAccepted ==
     LET n == TLCGet(1) IN
     IF n = Len(Rec) + 1 THEN TRUE
-    ELSE /\ PrintT(<<"UNMATCHED", n, ToJson(Rec[n]), phase>>)
+    ELSE /\ PrintT(<<"UNMATCHED", n, ToJson(Rec[n])>>)
          /\ FALSE
 OncePerPass == \A i, j \in 1..Len(order) : i # j => order[i] # order[j]
 AnsweredWereRequested == answered \subseteq requested
